@@ -47,6 +47,11 @@ def process_level(ctx, behs, n, pid, text):
     # every third scenario requests each reload with TWO SIGHUPs a few milliseconds apart (the second arrives while the first
     # reload is still running; those configurations carry 2 500 filler keys), every second one runs the server with -verbose
     sc = [{"id": i + 1, "replay": 0, "steps": b, "burst": i % 3 == 2, "verbose": i % 2 == 1} for i, b in enumerate(pb)]
+    for s in sc:
+        if s["burst"]:
+            # no foreign sockets in these scenarios: with two reloads per request "held during the load" has no clear meaning
+            # (ReloadTrace recomputes the expected result of every load from the configuration and the sockets actually held)
+            s["steps"] = [dict(st, frn=[]) if st.get("a") == "Load" else st for st in s["steps"]]
     tf = rl_common.run_process(ctx, sc, "proc-" + pid.lower(), timeout=3000)
     rl_common.judge(ctx, tf, "process level: real binary, SIGHUP reloads, /metrics", pid, text)
     ctx.cov["evaluations"] += len(pb)
